@@ -242,6 +242,27 @@ func (w *dnsWorld) c18Check(c dnsConn, target string, reroute, dialIp bool, know
 				s.Failf("c18-known-name-not-used@"+cls, "%s: the name is known to be genuine (dns knowledge=%s, probe=%s) and must be sent to the node", desc, known, verified)
 			}
 		case known == "no" && verified == "no":
+			// reach: the name still has an entry in the cache (fixed_domain_ttl keeps it beyond the original TTL)
+			live, scopes, evicted := 0, map[int]bool{}, false
+			for _, e := range w.track.hist {
+				if e.keyOK && e.key.name == c.name && e.key.qtype == dnsTypeOfAddr(c.dst.Addr()) {
+					scopes[e.key.scope] = true
+					if !e.removed {
+						live++
+					} else if !e.replaced {
+						evicted = true
+					}
+				}
+			}
+			if live > 0 {
+				s.Probe("dns.c18-unknown-name-still-cached-past-its-original-ttl")
+				if len(scopes) > 1 {
+					s.Probe("dns.c18-unknown-name-still-cached-and-seen-under-two-scopes")
+					if evicted {
+						s.Probe("dns.c18-unknown-name-still-cached-after-a-sibling-scope-was-evicted")
+					}
+				}
+			}
 			if target != c.dst.String() {
 				s.Failf("c18-name-leaked@not-known-genuine", "%s: the name was neither resolved through dae within its original TTL nor verified by a completed probe; the destination address %s must be dialled", desc, c.dst)
 			}
@@ -255,14 +276,26 @@ func dnsScenarioC18(w *dnsWorld) {
 	mode := []consts.DialMode{consts.DialMode_Domain, consts.DialMode_Domain, consts.DialMode_Ip, consts.DialMode_DomainPlus, consts.DialMode_DomainCao}[T.Choose(5)]
 	w.cfg = dnsCfg{optimistic: T.Chance(1, 2), staleTtl: 30, fixed: map[string]int{}, janitor: []time.Duration{30 * time.Second, 5 * time.Second}[T.Choose(2)], idleTTL: 2 * time.Minute}
 	w.cfg.maxSize = []int{0, 2}[T.Pick(4, 1)]
+	// a fifth of the domain-mode runs concentrate on one name with a long fixed_domain_ttl that is
+	// resolved through both resolvers (two scoped entries of one name) in a cache of two entries:
+	// evictions re-derive what is known about the name from the entries that remain
+	scopeBias := mode == consts.DialMode_Domain && T.Chance(1, 5)
+	biasOps := 0
+	if scopeBias {
+		w.cfg.maxSize = 2
+		s.Probe("dns.c18-one-name-two-scopes-small-cache")
+	}
 	w.c18 = &dnsC18{script: map[string]int{}}
 	w.c18.negTTL = []time.Duration{10 * time.Second, 30 * time.Second}[T.Choose(2)]
 	if !w.setup(dnsSetup{nNames: [2]int{2, 4}, nUps: [2]int{1, 2}, schemes: []string{"udp"}, reject: true, dialMode: mode}) {
 		return
 	}
 	realDomainNegativeCacheTTL = w.c18.negTTL
-	if T.Chance(1, 2) {
+	if T.Chance(1, 2) || scopeBias {
 		w.cfg.fixed[dnsAllNames[w.names[0]]] = []int{5, 900}[T.Choose(2)]
+		if scopeBias {
+			w.cfg.fixed[dnsAllNames[w.names[0]]] = 900
+		}
 		w.plane.dnsFixedDomainTtl = w.cfg.fixed
 		if err := w.ctl.TryUpdateRuntime(w.controllerOption(), w.plane.dnsRouting); err != nil {
 			s.Failf("harness-dns", "%v", err)
@@ -272,14 +305,25 @@ func dnsScenarioC18(w *dnsWorld) {
 	}
 	w.drawSpecs([]int{1, 2, 3}, false, false)
 	w.c18InstallProbeSeam()
+	if scopeBias {
+		// the verification probe finds no record for this name: it never becomes "verified", what is known about
+		// it comes from the DNS cache alone
+		w.c18.script[dnsAllNames[w.names[0]]] = 1
+	}
 	s.Notef("dial_mode %s, negative cache %v", mode, w.c18.negTTL)
 	rounds := T.Range(3, 12)
 	dsts := []netip.AddrPort{netip.MustParseAddrPort("93.184.216.34:443"), netip.MustParseAddrPort("[2606:2800:220:1::1]:8443")}
 	for r := 0; r < rounds && !s.Failed(); r++ {
 		if T.Chance(2, 5) {
 			// resolve a name through dae
-			op := &dnsOp{cli: 0, idx: len(w.ops), id: uint16(100 + len(w.ops))}
+			op := &dnsOp{cli: 0, idx: len(w.ops), id: uint16(100 + len(w.ops)), resolver: T.Pick(2, 1)}
 			op.name, op.qtype = w.names[T.Choose(len(w.names))], dnsQtypes[T.Pick(2, 1)]
+			if scopeBias && T.Chance(2, 3) {
+				// alternate between the two resolvers: first, second, first again (a hit that makes the
+				// older entry the more recently used one), ...
+				op.name, op.qtype, op.resolver = w.names[0], dnsQtypes[T.Pick(3, 1)], biasOps%2
+				biasOps++
+			}
 			op.qname = w.wireName(op.name, T.Pick(4, 1, 1))
 			w.ops = append(w.ops, op)
 			done := false
@@ -290,7 +334,7 @@ func dnsScenarioC18(w *dnsWorld) {
 			// every third resolution is followed by a reload that builds a new controller and
 			// replays the cloned cache (derived from the op count, no extra draw); the harness's
 			// knowledge of resolved names lives on through the restored entries
-			if len(w.ops)%3 == 2 {
+			if len(w.ops)%3 == 2 && !scopeBias { // (a reload rebuilds what is known from the restored entries; the biased runs are about evictions)
 				s.Quiesce(func() bool { return true }, 0, 0)
 				w.track.scan()
 				if !w.pendingWork() && w.fwdInFlight() == 0 {
@@ -308,6 +352,9 @@ func dnsScenarioC18(w *dnsWorld) {
 			switch T.Pick(10, 1, 1, 1, 1, 1, 1) {
 			case 0:
 				c.name = w.names[T.Choose(len(w.names))]
+				if scopeBias && T.Chance(2, 3) {
+					c.name = w.names[0]
+				}
 				c.sniffed = dnsAllNames[c.name]
 				switch T.Pick(4, 1, 1) {
 				case 1:
